@@ -174,6 +174,28 @@ fn c03_run_length_vector_queries() {
     assert_eq!(v.rank(s1 + l1 + g + 3), l1 + 3); assert_eq!(v.select(l1 + 3), Some(s1 + l1 + g + 3)); assert_eq!(v.select_zero(s1 + 2), Some(s1 + l1 + 2));
 }
 
+// a first run at position 0 that fills block 0 alone (code lengths 1 + 22, then 21 + 21 for the next run), then eight more blocks:
+// blocks 0 and 1 both have 0 unset bits before them (finding F13)
+#[test]
+fn c03_first_run_fills_block() {
+    let (l0, g, l1) = ((1usize << 63) + 1, 1usize << 60, (1usize << 60) + 1);
+    let mut b = RLBuilder::new();
+    b.try_set(0, l0).unwrap(); b.try_set(l0 + g, l1).unwrap();
+    let mut pos = l0 + g + l1;
+    let mut small: Vec<usize> = Vec::new();
+    for _ in 0..(32 * 9) { pos += 1; b.try_set(pos, 1).unwrap(); small.push(pos); pos += 1; }
+    b.set_len(pos + 10);
+    let v = RLVector::from(b);
+    assert_eq!(v.len(), pos + 10); assert_eq!(v.count_ones(), l0 + l1 + small.len());
+    assert_eq!(v.select_zero(0), Some(l0)); assert_eq!(v.select_zero(g), Some(l0 + g + l1)); assert_eq!(v.rank(l0), l0); assert_eq!(v.select(l0), Some(l0 + g));
+    assert!(v.get(0) && v.get(l0 - 1) && !v.get(l0) && v.get(l0 + g));
+    for (k, p) in small.iter().enumerate() {
+        assert!(v.get(*p) && !v.get(*p - 1)); assert_eq!(v.rank(*p), l0 + l1 + k); assert_eq!(v.select(l0 + l1 + k), Some(*p)); assert_eq!(v.select_zero(g + k), Some(*p - 1));
+    }
+    let runs: Vec<(usize, usize)> = v.run_iter().collect();
+    assert_eq!(runs.len(), 2 + small.len()); assert_eq!(runs[0], (0, l0)); assert_eq!(runs[1], (l0 + g, l1));
+}
+
 #[test]
 fn c04_wavelet_matrix() {
     let mut rng = Rng::new(4);
